@@ -86,15 +86,27 @@ impl Report {
         }
     }
     pub fn violation(&mut self, prop: &str, sig: impl Into<String>, what: impl Into<String>, replay: J) {
-        if self.violations.len() < 50 {
-            self.violations.push(Violation {
-                prop: prop.to_owned(),
-                sig: sig.into(),
-                what: what.into(),
-                replay,
-            });
-        } else {
-            self.count("violations_not_recorded");
+        self.push_violation(Violation {
+            prop: prop.to_owned(),
+            sig: sig.into(),
+            what: what.into(),
+            replay,
+        });
+    }
+    /// Keep at most 5 violations per (property, signature) and 300 in total, so that many
+    /// occurrences of one finding cannot crowd out a different one.
+    fn push_violation(&mut self, v: Violation) {
+        let same = self
+            .violations
+            .iter()
+            .filter(|o| o.prop == v.prop && o.sig == v.sig)
+            .count();
+        *self
+            .counters
+            .entry(format!("violations_seen[{}:{}]", v.prop, v.sig))
+            .or_default() += 1;
+        if same < 5 && self.violations.len() < 300 {
+            self.violations.push(v);
         }
     }
     pub fn cross(&mut self, prop: &str, sig: impl Into<String>, what: impl Into<String>, replay: J) {
@@ -123,7 +135,12 @@ impl Report {
             self.sample(s);
         }
         for v in other.violations {
-            if self.violations.len() < 50 {
+            let same = self
+                .violations
+                .iter()
+                .filter(|o| o.prop == v.prop && o.sig == v.sig)
+                .count();
+            if same < 5 && self.violations.len() < 300 {
                 self.violations.push(v);
             }
         }
